@@ -223,6 +223,26 @@ func catalogue() []defect {
 		{"auth-cname-component-removed", "reject", func(c *cas) {
 			c.m.Tkt.CName.Parts = append(append([]string{}, c.m.Tkt.CName.Parts...), "admin")
 		}},
+		// the same text cut into components at other places: a comparison of the "/"-joined strings cannot tell them apart
+		{"auth-cname-two-components-ticket-one-joined", "reject", func(c *cas) {
+			p := append([]string{}, c.m.Tkt.CName.Parts...)
+			if len(p) == 0 {
+				p = []string{"u"}
+			}
+			c.m.Tkt.CName.Parts = []string{strings.Join(append(p, "admin"), "/")}
+			c.m.Auth.CName.Parts = append(p, "admin")
+		}},
+		{"auth-cname-one-joined-ticket-two-components", "reject", func(c *cas) {
+			p := append([]string{}, c.m.Tkt.CName.Parts...)
+			if len(p) == 0 {
+				p = []string{"u"}
+			}
+			c.m.Auth.CName.Parts = []string{strings.Join(append(p, "admin"), "/")}
+			c.m.Tkt.CName.Parts = append(p, "admin")
+		}},
+		{"auth-cname-empty-component-added", "reject", func(c *cas) {
+			c.m.Auth.CName.Parts = append(append([]string{}, c.m.Auth.CName.Parts...), "")
+		}},
 		{"auth-cname-case-changed", "reject", func(c *cas) {
 			p := append([]string{}, c.m.Auth.CName.Parts...)
 			if len(p) == 0 {
